@@ -42,6 +42,12 @@ func mergeSchedSummary(r *engine.Run, prop string) {
 	if r.Replay {
 		return
 	}
+	if path == "" && os.Getenv("VERIF_SCHED_OPTIONAL") == "1" {
+		// the overlay could not be built for this tree and the schedule scenarios of this
+		// property are an addition to its enumerating parts: recorded, the rest is decided
+		r.Extra("schedule_exploration", map[string]interface{}{"not_run": "the sync shim overlay could not be built for this tree (see the note printed by bin/check.sh)"})
+		return
+	}
 	if path == "" {
 		r.HarnessError("the schedule exploration part of %s did not run (VERIF_SCHED_SUMMARY not set; use bin/check.sh)", prop)
 		return
